@@ -45,8 +45,46 @@ def rq_bytes(calling="A", called="B", abstract="1.2.840.10008.1.1"):
     return pdu.encode()
 
 
+def proposed_ids(contexts):
+    """the context ids of the A-ASSOCIATE-RQ the REAL AE.associate builds (nothing listens on the port: the request object is
+    complete before the connection is attempted)"""
+    from pynetdicom import AE
+    ae = AE()
+    ae.acse_timeout = ae.network_timeout = ae.dimse_timeout = ae.connection_timeout = 1
+    assoc = ae.associate("127.0.0.1", 1, contexts=contexts)
+    return [c.context_id for c in assoc.requestor.requested_contexts]
+
+
+def check_context_ids():
+    def fresh(n):
+        return [build_context("1.2.840.10008.1.1") for _ in range(n)]
+
+    def numbered(ids):
+        out = fresh(len(ids))
+        for c, i in zip(out, ids):
+            c.context_id = i
+        return out
+    shared = build_context("1.2.840.10008.5.1.4.1.1.2")
+    cases = [("three fresh contexts", fresh(3)), ("contexts that already carry ids [1, 5, None]", numbered([1, 5, None])),
+             ("contexts that already carry ids [3, None, None]", numbered([3, None, None])),
+             ("the same context object listed twice", [shared, shared]),
+             ("the same context object listed twice among others", fresh(1) + [shared] + fresh(1) + [shared])]
+    for label, cxs in cases:
+        ids = proposed_ids(cxs)
+        if ids != [2 * i + 1 for i in range(len(cxs))]:
+            return dict(input={"contexts passed to AE.associate": label}, observed={"context ids in the request": ids},
+                        expected=f"distinct odd ids {[2 * i + 1 for i in range(len(cxs))]}")
+    return None
+
+
 bad = None
 cands = [s for s in [model_string()] if s is not None]
+if "associate" in ob or ob.endswith("cross-check"):
+    bad = check_context_ids()
+    if bad:
+        done(True, **bad)
+    if "associate" in ob:
+        done(False, note="AE.associate numbered every tried context list 1, 3, 5, ...")
 if "validate_ui" in ob or "set_uid" in ob:
     for s in cands + ["1.2.abc", "not a uid", "1..2", "\x001"]:
         ok, why = _validators.validate_ui(__import__("pydicom").uid.UID(s))
